@@ -27,7 +27,7 @@ var apiIndexPre = map[string]string{
 	"Term": "Len", "Field": "NumFields", "Embedded": "NumEmbeddeds",
 }
 
-var nonNilGlobals = map[string]bool{"os.Stdout": true, "os.Stderr": true, "os.ErrNotExist": true}
+var nonNilGlobals = map[string]bool{"os.Stdout": true, "os.Stderr": true, "os.ErrNotExist": true, "go/types.Unsafe": true}
 
 // accessors of go/types whose result is never nil (A-types)
 var nonNilAccessor = map[string]bool{"Scope": true, "Type": true, "Underlying": true, "Obj": true, "Params": true, "Results": true, "Elem": true, "Key": true,
